@@ -40,10 +40,12 @@ pub struct Alt {
     pub free_mode: Vec<String>,
     /// paths whose content is not compared
     pub free_data: Vec<String>,
+    /// links whose recorded target kind is not compared
+    pub free_kind: Vec<String>,
 }
 
 fn alt(expect: Expect, next: Next) -> Alt {
-    Alt { expect, next, free_mode: vec![], free_data: vec![] }
+    Alt { expect, next, free_mode: vec![], free_data: vec![], free_kind: vec![] }
 }
 fn ok(v: Val) -> Expect {
     Expect::Exact(Outcome::Ok(v))
@@ -404,15 +406,22 @@ impl Model {
         };
         let lp = parent(&l).unwrap_or_else(|| "/".into());
         let tjoined = if traw.starts_with('/') { traw.to_string() } else { refpath::mash(&lp, traw) };
+        // several error conditions may hold at once; which one is reported is not documented
+        let link_in_the_way = l == "/" || self.parent_rule(&l).is_some() || self.k(&l) != K::Missing;
         let tabs = match self.abs(&tjoined) {
             Ok(x) => x,
-            Err(e) => return same(err(&e)),
+            Err(e) => return if link_in_the_way { same(Expect::ErrAny) } else { same(err(&e)) },
         };
         if l == "/" {
             return same(Expect::ErrAny);
         }
         if let Some(a) = self.parent_rule(&l) {
             return a;
+        }
+        if !traw.starts_with('/') && (traw.contains('$') || traw.contains('~')) {
+            // expansion inside a target that is joined onto the link's directory: the meaning of
+            // an absolute value in a non-leading position belongs to C17, not decided here
+            return vec![alt(Expect::ErrAny, Next::Same), alt(Expect::OkAny, Next::Resync(vec![l.clone()]))];
         }
         let link_dir = matches!(self.k(&tabs), K::Dir | K::LinkD);
         let rel = refpath::relative(&tabs, &lp);
@@ -474,6 +483,22 @@ impl Model {
                         let tgt = self.t.nodes[&p].target.clone().unwrap_or_default();
                         if chain.contains(&tgt) {
                             return Err(()); // link loop
+                        }
+                        if self.k(&p) == K::LinkD && self.k(&tgt) == K::Missing {
+                            return Err(()); // following a link whose directory target is gone
+                        }
+                        let now_dir = matches!(self.k(&tgt), K::Dir | K::LinkD);
+                        if self.k(&tgt) != K::Missing && now_dir != (self.k(&p) == K::LinkD) {
+                            // the target changed kind since the link was made: what the link
+                            // "is" now is unspecified
+                            return Err(());
+                        }
+                        if matches!(self.k(&tgt), K::LinkF | K::LinkD) {
+                            // a link to a link: the second link is the target, it is not resolved further
+                            if seen.insert(tgt.clone()) {
+                                out.push(tgt);
+                            }
+                            continue;
                         }
                         let mut ch = chain.clone();
                         ch.push(tgt.clone());
@@ -620,6 +645,20 @@ impl Model {
         if s == "/" {
             return lenient(vec!["/".into()]);
         }
+        if follow {
+            // documented only as "follow links"; what name a followed link is copied under is
+            // not stated. Tolerated here: any result confined to the destination argument
+            let mut top = d.clone();
+            let mut cur = parent(&d);
+            while let Some(c) = cur {
+                if self.k(&c) != K::Missing {
+                    break;
+                }
+                top = c.clone();
+                cur = parent(&c);
+            }
+            return lenient(vec![top]);
+        }
         let copy_into = self.k(&d) == K::Dir;
         let t_root = if copy_into { join(&d, base(&s)) } else { d.clone() };
         if t_root == s {
@@ -646,7 +685,7 @@ impl Model {
         if follow {
             // documented only as "follow links"; judged by the C09 oracle, here any result
             // confined to the destination is tolerated
-            return lenient(vec![change_root]);
+            return lenient(vec![change_root, d.clone()]);
         }
         // destination parents
         let mut t = self.t.clone();
@@ -669,6 +708,9 @@ impl Model {
         }
         let mut conflict = false;
         let mut soft_conflict = false;
+        // the kind a copied link records depends on whether its target already exists at that
+        // moment of the copy, which depends on the enumeration order
+        let mut free_kind: Vec<String> = vec![];
         for k in self.t.subtree(&s) {
             let e = &self.t.nodes[&k];
             let dst = format!("{}{}", t_root, &k[s.len()..]);
@@ -708,6 +750,7 @@ impl Model {
                         let tgt = e.target.clone().unwrap_or_default();
                         let link_dir = matches!(self.k(&tgt), K::Dir | K::LinkD);
                         let rel = refpath::relative(&tgt, &parent(&dst).unwrap_or("/".into()));
+                        free_kind.push(dst.clone());
                         t.nodes.insert(dst, Node::link(tgt, rel, link_dir));
                     },
                     // an existing link is kept, or the copy refuses (symlink(2) semantics)
@@ -724,6 +767,7 @@ impl Model {
         }
         let mut a = alt(ok(Val::Unit), st(t));
         a.free_mode = free_mode;
+        a.free_kind = free_kind;
         if soft_conflict {
             return vec![a, alt(Expect::ErrAny, Next::Resync(vec![change_root]))];
         }
